@@ -214,6 +214,13 @@ def gen_vcn(rng, tier, ctx):
     out = set()
     for _ in range(1500 if tier == "thorough" else 400):
         out.add(_cls_name(rng))
+    # very long names around the usual limits (name, path and buffer sizes), made of '..' segments: whatever is cut off such a
+    # name, at whatever alignment, what is left must still be free of '..', '.', empty segments and a leading '/'
+    for limit in (128, 255, 256, 512, 1000, 1024, 2048, 4096) if tier == "thorough" else (255, 256, 1024, 4096):
+        for d in range(0, 9):
+            k = (limit + d) // 4 + 1
+            out.add("L" + "../" * k + "x" * ((limit + d) % 4) + ";")
+            out.add("L" + "a" * ((limit + d) % 5) + "/" + "./../" * (k * 4 // 5) + "y;")
     return sorted(out)
 
 
